@@ -5,8 +5,12 @@ import MsqModel.Driver.ShowVal
 Driver command `CACHE <hex ops>`: run an operation history against the cache model (`MsqModel/Cache.lean`) with the
 deterministic schema provider below and the parser model, and print results, provider call log and directory.
 
-ops (joined by `;`):  `new` | `nodisk` | `get:<hex name>` | `crash:<steps>:<flushed>:<hex name>`
-every `get`/`crash` result is prefixed with `+` (the provider was asked) or `-`
+ops (joined by `;`):  `new` | `nodisk` | `get:<hex name>` | `crash:<steps>:<flushed>:<hex name>` | `put:<hex file name>:<hex text>`
+every `get`/`crash` result is prefixed with `+` (the provider was asked) or `-`; `put` = somebody else (an earlier version of the
+library, an editor) writes a file into the cache directory — not an operation of the class.
+
+`QUOTE <hex name>` = the file name of a table (`Cache.enc n ++ ".sql"`); `STEM <hex file name>` = the table name `__init__` reads
+out of a directory entry (`Cache.entryName`).
 -/
 namespace Drv
 open Cache
@@ -81,6 +85,8 @@ def cacheOp (r : CacheRun) (op : String) : CacheRun :=
     if !r.live then { r with out := r.out ++ ["NOINSTANCE"] } else
     let (res, s) := Cache.get cacheProvider cacheParse (some ⟨k.toNat!, fl.toNat!⟩) r.st (unhex h)
     { st := s, live := res != .fail .crashed, out := r.out ++ [asked r.st s ++ showRes res] }
+  | ["put", hf, ht] =>
+    { r with st := { r.st with files := fset r.st.files (unhex hf) (unhex ht) }, out := r.out ++ ["P"] }
   | _ => { r with out := r.out ++ ["BADOP"] }
 
 def cmdCache : List String → Option String
@@ -93,6 +99,11 @@ def cmdCache : List String → Option String
       | none =>
         "OK " ++ " ".intercalate r.out ++ " calls=" ++ ",".intercalate (r.st.calls.map enhex)
           ++ " dir=" ++ showFiles r.st.files ++ " parent=" ++ showFiles r.st.parent
+  | ["QUOTE", h] => some ("OK " ++ enhex (enc (unhex h) ++ ext))
+  | ["STEM", h] =>
+    some <| match entryName (unhex h) with
+      | some n => "OK some " ++ enhex n
+      | none => "OK none"
   | _ => none
 
 end Drv
